@@ -7,7 +7,8 @@ PID = 'C14'
 def items():
     # 'binary or armored': the armor writer, its checksum and the reader are part of every armored export / import
     from contracts import armor
-    return tpk.scenarios() + [s for s in subpackets.scenarios() + armor.scenarios() if PID in getattr(s, 'props', ())]
+    from contracts import packets, subpacket_values       # what the copies exported by key.pubkey / copy.copy carry; option collections
+    return tpk.scenarios() + [s for s in subpackets.scenarios() + armor.scenarios() + packets.scenarios() + subpacket_values.scenarios() if PID in getattr(s, 'props', ())]
 
 
 def run(tier='quick', seed=0, only=None):
